@@ -71,8 +71,37 @@ macro_rules! int_from_other {
     };
 }
 
+/// integer target from a float source: the property allows an error (today's behaviour) or the
+/// *exact* integer — never a rounded, saturated or wrapped one. `f as i128` is exact for every
+/// whole f64 of magnitude < 2^127; `v as f64 == f` alone would accept 2^63 -> i64::MAX.
+macro_rules! int_from_float {
+    ($name:ident, $target:ty) => {
+        #[kani::proof]
+        #[kani::unwind(4)]
+        #[kani::stub(std::fmt::format, stub_format)]
+        pub fn $name() {
+            let f: f64 = crate::shapes::any_finite();
+            let r = <$target as Deserialize>::deserialize(FieldValue::Float64(f).into_deserializer());
+            let ok = match &r {
+                Err(_) => true,
+                Ok(v) => {
+                    let w = *v as i128;
+                    (w as f64) == f && (f as i128) == w
+                }
+            };
+            kani::cover!(r.is_err(), "witness: float source refused by an integer target");
+            std::mem::forget(r);
+            kani::cover!(true, "witness: end of harness reached");
+            assert!(ok, "integer target from a float source is an error or the exact integer, never rounded / saturated");
+        }
+    };
+}
+
 pub mod quick {
     use super::*;
+
+    int_from_float!(i64_from_float, i64);
+    int_from_float!(u8_from_float, u8);
 
     int_from_int!(i8_from_i64, i8, Int64, i64);
     int_from_int!(i16_from_i64, i16, Int64, i64);
@@ -280,9 +309,10 @@ pub mod thorough {
     opt_int_from_int!(opt_u32_from_u64, u32, Uint64, u64);
     opt_int_from_int!(opt_usize_from_u64, usize, Uint64, u64);
 
-    int_from_other!(i64_from_float, i64, FieldValue::Float64(crate::shapes::any_finite()));
-    int_from_other!(u64_from_float, u64, FieldValue::Float64(crate::shapes::any_finite()));
-    int_from_other!(i32_from_float, i32, FieldValue::Float64(crate::shapes::any_finite()));
+    int_from_float!(u64_from_float, u64);
+    int_from_float!(i32_from_float, i32);
+    int_from_float!(i16_from_float, i16);
+    int_from_float!(usize_from_float, usize);
     int_from_other!(i64_from_str1, i64, crate::mkv!(S1));
     int_from_other!(u8_from_str1, u8, crate::mkv!(S1));
 
